@@ -619,7 +619,7 @@ class C19(Check):
     level_text = ('Lean theorems over the model of Route.url (marker loop with slice bookkeeping, positional anonymous '
                   'arguments, formatters, sanity check): the built URL is the rule\'s literal runs verbatim and in order '
                   'with one formatted value per wildcard; a rule matched by a path is matched again by the URL built '
-                  'from the matched values, with the same values - proved outright for plain and int wildcards '
+                  'from the matched values, with the same values (stated for the rule-by-rule matcher and for the tree of a router holding only that rule) - proved outright for plain and int wildcards '
                   '(concrete int filter), under a named per-wildcard stability hypothesis for re/path/float; model '
                   'tied to the code by differential round trips resolve -> url -> resolve.')
     level_note_extra = ('re/path/float filters are parameters (real handler and formatter answers shipped); their stability '
@@ -633,7 +633,7 @@ class C19(Check):
     assumptions = ['re matching of the filter masks other than int is taken from the running interpreter (handler results shipped)',
                    'the float formatter is a parameter (its answers shipped); Stable for re/path/float wildcards is a named hypothesis',
                    'rule text contains no CR and no repeated wildcard name (as for C01)',
-                   'rule-by-rule matcher = tree lookup on a single-rule router: checked by correspondence here, theorem of C01']
+                   'tree lookup on a single-rule router = rule-by-rule matcher: C01 theorems get_eq_spec/insert_wf/insert_denote (imported by url_rematch_tree, selector-free environments) and checked on every correspondence line']
 
     def __init__(self):
         self.stats = {}
